@@ -6,6 +6,8 @@ From Coq Require Import List NArith Bool String.
 Import ListNotations.
 Require Import Verif.Ints.IntsModel Verif.Ints.IntsFold Verif.Ints.IntsProps Verif.Ints.IntsTerm Verif.Ints.IntsView Verif.Ints.Views.
 Require Import Verif.Ints.ShapeTypes Verif.Ints.Shape Verif.Gen.IntsShape.
+Require Import Verif.Ints.VModel Verif.Ints.VProps Verif.Ints.VGenProps Verif.Ints.VShapeTypes Verif.Ints.VShape Verif.Gen.IntsViewShape.
+Require Import Verif.Ints.WalkDisc Verif.Ints.WalkDiscProps Verif.Ints.WalkShape.
 Local Open Scope N_scope.
 
 (* ---- termination ---- *)
@@ -108,7 +110,7 @@ Theorem C14_source_shape :
      pep m ex pt g (S f) stk src sep s t e = interp m [] [] ex (walk_passthrough_model m ex pt g f stk) handler_pep src sep s t e) /\
   walk_passthrough = [WIfPassthrough; WKeyAppEp; WSkipIfActive; WInitSet; WMarkActive; WDeferUnmark; WRecursePep] /\
   seed_filter = [SeedDefined; SeedNotHuman; SeedNotExcluded] /\
-  List.length passes = 3%nat /\ List.length process_calls = 10%nat.
+  List.length Verif.Gen.IntsShape.passes = 3%nat /\ List.length process_calls = 10%nat.
 Proof. exact source_shape. Qed.
 Print Assumptions C14_source_shape.
 
@@ -123,3 +125,225 @@ Print Assumptions C14_views_independent.
 Theorem C14_views_loop_shape : views_loop = [VOwnExcludes; VOwnPassthrough; VBuildFreshUnion; VParamsFromThisBuilder; VRender].
 Proof. exact shape_views_loop. Qed.
 Print Assumptions C14_views_loop_shape.
+
+(* ==================== Deepen round 3: every view of ints_view.go (Ints/VModel.v) ====================
+   [ints_view vi k seeds di clustered system apps deps] is GenerateIntsView after the header (package boxes, the
+   arrow loop of DrawIntsView or DrawSystemView, the mixin arrows), [epa_view vi seeds rb deps] is GenerateEPAView;
+   a diagram is the list of its lines as events; k = true is the current code (fixes/C14-3: symbols keyed by the
+   app's own name).  [keyf vi k cl sys apps a] is the symbol-table key of the component that stands for app a:
+   its full name (k = true; plain and clustered), its first name part (system view). *)
+
+(* ---- component diagrams: plain, clustered, system ---- *)
+(* the joining lines of a diagram, in order, are exactly: one call arrow per drawn pair of the arrow loop, then
+   (not in the system view) one mixin arrow per Mixin2 entry of every final app *)
+Theorem C14_view_links : forall vi k seedset di cl sys apps ds,
+  links (ints_view vi k seedset di cl sys apps ds) =
+  map (fun ar => match ar with (a,b,i) => EvArrow (keyf vi k cl sys apps a) (keyf vi k cl sys apps b) i end)
+      (plain_arrows seedset di ds)
+  ++ (if sys then [] else
+      flat_map (fun a => map (fun mx => EvMixin (keyf vi k cl false apps mx) (keyf vi k cl false apps a)) (mixins_of vi a)) apps).
+Proof. exact ints_view_links. Qed.
+Print Assumptions C14_view_links.
+
+(* soundness, each of the three views: every call arrow joins the components of two different apps of which the
+   first has a call statement to the second, neither excluded *)
+Theorem C14_view_arrows_sound : forall m listed ex pt g fuel s vi k di cl sys ka kb i,
+  build m listed ex pt g true fuel = Ok s ->
+  In (EvArrow ka kb i) (ints_view vi k (seeds m listed ex true) di cl sys (final s) (deps s)) ->
+  exists a b, ka = keyf vi k cl sys (final s) a /\ kb = keyf vi k cl sys (final s) b /\ a <> b /\
+              (exists sep e, has_call m a sep b e) /\ mem a ex = false /\ mem b ex = false.
+Proof. exact view_arrows_sound. Qed.
+Print Assumptions C14_view_arrows_sound.
+
+(* completeness, each of the three views: the hypotheses of C14_arrows_complete give an arrow between the
+   components of the listed app and of its target, not marked indirect *)
+Theorem C14_view_arrows_complete : forall m listed ex pt g fuel s vi k di cl sys S ap sep ep t e,
+  build m listed ex pt g true fuel = Ok s ->
+  In S listed -> assoc S m = Some ap -> human ap = false -> mem S ex = false ->
+  In (sep, ep) (eps ap) -> coll ep = false -> In (t,e) (calls (body ep)) -> t <> S ->
+  mem t ex = false -> target_human m t = false -> target_hidden m t e = Ok false ->
+  In (EvArrow (keyf vi k cl sys (final s) S) (keyf vi k cl sys (final s) t) false)
+     (ints_view vi k (seeds m listed ex true) di cl sys (final s) (deps s)).
+Proof. exact view_arrows_complete. Qed.
+Print Assumptions C14_view_arrows_complete.
+
+(* the current code, plain and clustered view: a component stands for ONE app (different apps have different
+   names), so an arrow between the components of a and b means a calls b *)
+Theorem C14_component_arrows_sound : forall m listed ex pt g fuel s vi di cl a b i,
+  (forall a b, full vi a = full vi b -> a = b) ->
+  build m listed ex pt g true fuel = Ok s ->
+  In (EvArrow (full vi a) (full vi b) i) (ints_view vi true (seeds m listed ex true) di cl false (final s) (deps s)) ->
+  a <> b /\ (exists sep e, has_call m a sep b e) /\ mem a ex = false /\ mem b ex = false.
+Proof. exact component_arrows_sound. Qed.
+Print Assumptions C14_component_arrows_sound.
+
+(* before repair C14-3 (k = false) that is false in the clustered view: "B" and "G :: B" are one component, and
+   the diagram shows an arrow from A to the component of B although A never calls B *)
+Theorem C14_clustered_merge_before_fix_refuted :
+  exists vi m listed s a b i,
+    (forall x y, In x [0;1;2] -> In y [0;1;2] -> full vi x = full vi y -> x = y) /\
+    build m listed [] [] true true (fuel_bound m) = Ok s /\
+    In (EvArrow (keyf vi false true false (final s) a) (keyf vi false true false (final s) b) i)
+       (ints_view vi false (seeds m listed [] true) true true false (final s) (deps s)) /\
+    a <> b /\ ~ (exists sep e, has_call m a sep b e).
+Proof. exact clustered_merge_refuted. Qed.
+Print Assumptions C14_clustered_merge_before_fix_refuted.
+
+(* mixin arrows are exactly the Mixin2 entries of the final apps; the system view has none *)
+Theorem C14_mixin_arrows : forall vi k seedset di cl apps ds k1 k2,
+  In (EvMixin k1 k2) (ints_view vi k seedset di cl false apps ds) <->
+  exists a mx, In a apps /\ In mx (mixins_of vi a) /\
+               k1 = keyf vi k cl false apps mx /\ k2 = keyf vi k cl false apps a.
+Proof. exact in_mixins. Qed.
+Print Assumptions C14_mixin_arrows.
+Theorem C14_system_view_no_mixins : forall vi k seedset di cl apps ds k1 k2,
+  ~ In (EvMixin k1 k2) (ints_view vi k seedset di cl true apps ds).
+Proof. exact system_view_no_mixins. Qed.
+Print Assumptions C14_system_view_no_mixins.
+
+(* every arrow refers to components that an earlier line declares (so alias numbers in the text are defined) *)
+Theorem C14_comps_declared_before_use : forall vi k seedset di cl sys apps ds pre post ka kb,
+  (forall i, ints_view vi k seedset di cl sys apps ds = pre ++ EvArrow ka kb i :: post ->
+     declared ka pre /\ declared kb pre) /\
+  (ints_view vi k seedset di cl sys apps ds = pre ++ EvMixin ka kb :: post ->
+     declared ka pre /\ declared kb pre).
+Proof. exact comps_declared_before_use. Qed.
+Print Assumptions C14_comps_declared_before_use.
+
+(* ---- the EPA view ---- *)
+(* every arrow comes from a dependency that passes the restrict_by tests, in one of four shapes: pubsub source
+   endpoint -> target endpoint (blue); endpoint -> "target client" state of the same app; that client state ->
+   target endpoint (black, once per app / target); endpoint -> endpoint of the same app *)
+Theorem C14_epa_arrow_shapes : forall vi seedset rb ds a ma b mb c,
+  In (EvEArrow a ma b mb c) (epa_view vi seedset rb ds) ->
+  exists sa t sb, In (a,sa,t,sb) ds /\ passes vi rb (a,sa,t,sb) = true /\
+    ( (a <> t /\ is_ps vi a sa = true  /\ b = t /\ ma = m_ep sa /\ mb = m_ep sb /\ c = 1)
+   \/ (a <> t /\ is_ps vi a sa = false /\ b = a /\ ma = m_ep sa /\ mb = m_client sb /\ c = 0)
+   \/ (a <> t /\ is_ps vi a sa = false /\ b = t /\ ma = m_client sb /\ mb = m_ep sb /\ c = 2)
+   \/ (a = t /\ b = t /\ ma = m_ep sa /\ mb = m_ep sb /\ c = 0)).
+Proof. exact epa_sound. Qed.
+Print Assumptions C14_epa_arrow_shapes.
+
+(* soundness: an EPA arrow touches no excluded app, and joins either two states of one app or two apps of which
+   the first has a call statement to the second *)
+Theorem C14_epa_sound : forall m listed ex pt g fuel s vi rb a ma b mb c,
+  build m listed ex pt g true fuel = Ok s ->
+  In (EvEArrow a ma b mb c) (epa_view vi (seeds m listed ex true) rb (deps s)) ->
+  mem a ex = false /\ mem b ex = false /\ (a = b \/ exists sep e, has_call m a sep b e).
+Proof. exact epa_view_sound. Qed.
+Print Assumptions C14_epa_sound.
+
+(* completeness (no restrict_by): every call of a listed app - also one to itself - under the hypotheses of
+   C14_complete is drawn, in the shape its source endpoint (pubsub or not) and target (same app or not) ask for *)
+Theorem C14_epa_complete : forall m listed ex pt g fuel s vi S ap sep ep t e,
+  build m listed ex pt g true fuel = Ok s ->
+  In S listed -> assoc S m = Some ap -> human ap = false -> mem S ex = false ->
+  In (sep, ep) (eps ap) -> coll ep = false -> In (t,e) (calls (body ep)) ->
+  mem t ex = false -> target_human m t = false -> target_hidden m t e = Ok false ->
+  let evs := epa_view vi (seeds m listed ex true) false (deps s) in
+  (S <> t -> is_ps vi S sep = true -> In (EvEArrow S (m_ep sep) t (m_ep e) 1) evs) /\
+  (S <> t -> is_ps vi S sep = false ->
+     In (EvEArrow S (m_ep sep) S (m_client e) 0) evs /\ In (EvEArrow S (m_client e) t (m_ep e) 2) evs) /\
+  (S = t -> In (EvEArrow S (m_ep sep) S (m_ep e) 0) evs).
+Proof. exact epa_view_complete. Qed.
+Print Assumptions C14_epa_complete.
+
+(* ... and with restrict_by, for the calls that pass its two tests (PARTIAL by design: restrict_by hides the rest) *)
+Theorem C14_epa_complete_restricted : forall m listed ex pt g fuel s vi rb S ap sep ep t e,
+  build m listed ex pt g true fuel = Ok s ->
+  In S listed -> assoc S m = Some ap -> human ap = false -> mem S ex = false ->
+  In (sep, ep) (eps ap) -> coll ep = false -> In (t,e) (calls (body ep)) ->
+  mem t ex = false -> target_human m t = false -> target_hidden m t e = Ok false ->
+  passes vi rb (S,sep,t,e) = true ->
+  let evs := epa_view vi (seeds m listed ex true) rb (deps s) in
+  (S <> t -> is_ps vi S sep = true -> In (EvEArrow S (m_ep sep) t (m_ep e) 1) evs) /\
+  (S <> t -> is_ps vi S sep = false ->
+     In (EvEArrow S (m_ep sep) S (m_client e) 0) evs /\ In (EvEArrow S (m_client e) t (m_ep e) 2) evs) /\
+  (S = t -> In (EvEArrow S (m_ep sep) S (m_ep e) 0) evs).
+Proof. exact epa_view_complete_restricted. Qed.
+Print Assumptions C14_epa_complete_restricted.
+
+(* every state an arrow needs is declared inside its app's box: the arrow loop itself declares nothing *)
+Theorem C14_epa_states_in_boxes : forall vi seedset rb ds e0 s0,
+  epa_clusters vi seedset rb [] ds (epa_keys vi rb ds) = (e0, s0) ->
+  epa_view vi seedset rb ds = e0 ++ epa_arrows vi seedset rb [] s0 ds /\
+  epa_arrows vi seedset rb [] s0 ds = ea vi rb [] ds /\
+  forall a mb hl, ~ In (EvState a mb hl) (epa_arrows vi seedset rb [] s0 ds).
+Proof. exact epa_arrows_declare_nothing. Qed.
+Print Assumptions C14_epa_states_in_boxes.
+
+(* ---- GenerateIntegrations: output names and --filter ---- *)
+(* every diagram of the result is the diagram that an endpoint passing the filter, with that output name, gets
+   alone (own excludes U command-level excludes, own pass-through, own view parameters) *)
+Theorem C14_generate_integrations_sound : forall m vi k cli fuel vs o x,
+  assoc o (generate_integrations m vi k cli fuel vs) = Some x ->
+  exists v, In v vs /\ pv_match v = true /\ pv_out v = o /\ x = render1 m vi k cli fuel v.
+Proof. exact generate_integrations_sound. Qed.
+Print Assumptions C14_generate_integrations_sound.
+
+(* an endpoint that passes the filter and shares its output name with no other such endpoint has its own diagram:
+   no view is dropped because of another *)
+Theorem C14_generate_integrations_own : forall m vi k cli fuel vs v,
+  (forall w, In w vs -> pv_match w = true -> pv_out w = pv_out v -> w = v) ->
+  In v vs -> pv_match v = true ->
+  assoc (pv_out v) (generate_integrations m vi k cli fuel vs) = Some (render1 m vi k cli fuel v).
+Proof. exact generate_integrations_own. Qed.
+Print Assumptions C14_generate_integrations_own.
+
+(* when output names collide the LAST endpoint in name order is the one kept; a filtered-out endpoint leaves no trace *)
+Theorem C14_generate_integrations_last : forall m vi k cli fuel vs o,
+  assoc o (generate_integrations m vi k cli fuel vs) = option_map (render1 m vi k cli fuel) (last_named o vs None).
+Proof. intros. apply gen_map_last. Qed.
+Print Assumptions C14_generate_integrations_last.
+Theorem C14_filtered_out_leaves_no_trace : forall m vi k cli fuel vs1 v vs2,
+  pv_match v = false ->
+  generate_integrations m vi k cli fuel (vs1 ++ v :: vs2) = generate_integrations m vi k cli fuel (vs1 ++ vs2).
+Proof. intros. apply gen_map_filtered_out. assumption. Qed.
+Print Assumptions C14_filtered_out_leaves_no_trace.
+
+(* ---- ints_view.go still has the shape the model was written from (Gen/IntsViewShape.v) ---- *)
+Theorem C14_view_source_shape :
+  sym_k comp_symbols = Some true /\
+  view_dispatch = [("GenerateView", [DCli "Epa"; DAttr "epa"]);
+                   ("GenerateIntsView", [DCli "Clustered"; DAttr "clustered"]);
+                   ("DrawIntsView", [DAttr "system"])]%string /\
+  arrows_ints = [LSrc; LTgt; LSkipSelf; LPair; LDirectDecl; LDirect Src; LDirect Tgt; LOncePerPair] /\
+  arrows_system = [LSrc; LTgt; LSkipSelf; LPair; LDirectDecl; LDirect Src; LDirect Tgt; LFirstPart Src; LFirstPart Tgt; LOncePerPair] /\
+  (forall vi rb d, passes vi rb d = forallb (rstep_passes vi rb d) epa_restrict).
+Proof. exact view_source_shape. Qed.
+Print Assumptions C14_view_source_shape.
+
+(* ==================== the marker discipline of WalkPassthrough (Ints/WalkDisc.v) ====================
+   [pepw m ex pt u fuel src sep (s, w) t e] is ProcessExcludeAndPassthrough + WalkPassthrough with b.walking as the
+   ONE set shared by all invocations (state w), the marker set after the re-entrancy test and removed by the
+   deferred delete; u = false: the delete is registered after the test (the source), u = true: before it, so that a
+   cut re-entry removes the marker of the expansion in progress. *)
+
+(* with the source order the shared set behaves exactly like the stack parameter of the model used everywhere
+   else (IntsModel.pep with the guard): same outcome, and the set is back to what it was on every return *)
+Theorem C14_walk_marker_discipline : forall m ex pt fuel src sep s w t e,
+  pepw m ex pt false fuel src sep (s, w) t e =
+  match pep m ex pt true fuel w src sep s t e with Ok s' => Ok (s', w) | Panic => Panic | OutOfFuel => OutOfFuel end.
+Proof. exact pepw_source_eq. Qed.
+Print Assumptions C14_walk_marker_discipline.
+
+(* ... so it terminates on every graph, cycles with any number of calls in each direction included *)
+Theorem C14_walk_terminates : forall m ex pt f src sep s w t e,
+  NoDup w -> incl w (all_targets m) -> In (t,e) (all_targets m) ->
+  (List.length (all_targets m) < List.length w + f)%nat ->
+  pepw m ex pt false f src sep (s, w) t e <> OutOfFuel.
+Proof. exact pepw_source_terminates. Qed.
+Print Assumptions C14_walk_terminates.
+
+(* removing the marker on a cut re-entry loses termination: two pass-through endpoints with two calls to each
+   other (a retry; the two branches of an if / else) exhaust ANY fuel *)
+Theorem C14_unmark_on_cut_refuted : forall fuel src sep s, pepw dm [] [1;2] true fuel src sep (s, []) 1 1 = OutOfFuel.
+Proof. exact unmark_on_cut_diverges. Qed.
+Print Assumptions C14_unmark_on_cut_refuted.
+
+(* the current source has the terminating order: test, create the map, set the marker, defer its removal, recurse *)
+Theorem C14_walk_discipline_shape :
+  walk_passthrough = [WIfPassthrough; WKeyAppEp; WSkipIfActive; WInitSet; WMarkActive; WDeferUnmark; WRecursePep] /\
+  unmark_on_cut_of walk_passthrough = Some false.
+Proof. split; [exact (proj1 (proj2 (proj2 (proj2 source_shape))))|exact shape_walk_discipline]. Qed.
+Print Assumptions C14_walk_discipline_shape.
